@@ -23,7 +23,8 @@ META = dict(
                "that takes a unit or run and touches its data calls the role guard first, so for every world, id and "
                "user who lacks every required role the answer is 403 and the handler body never runs (nothing read, "
                "no command / method edit / cancel / force forwarded); objects without required roles pass; listings "
-               "contain exactly the accessible objects (C32_partial, no_roles_required_open, listing_only_accessible, "
+               "contain exactly the accessible objects, the online unit's roles winning over a stale recent-engine row "
+               "(C32_partial, no_roles_required_open, unit_listing_only_accessible, run_listing_only_accessible, "
                "listing_contains_accessible, guarded_endpoint_refuses for any guarded route). Over histories of engine "
                "events (connect+UodInfo, later UodInfo, run started/stopped/replaced, disconnect, reconnect) the roles "
                "the routers see are those of the unit's last UodInfo - run events never change them - stored runs and "
@@ -32,7 +33,14 @@ META = dict(
                "refuted for the unchanged code (C32_counterexample): the two method-editor endpoints (LSP grammar "
                "route and LSP websocket) read unit data without any role check - recorded known findings, replayed "
                "against the real app on every run.",
-    level_note="Partial: the LSP router is excluded (known findings). Trusted: Lean kernel; the translator's AST "
+    level_note="Partial: the LSP router is excluded (known findings). Which endpoints take a unit or run is decided "
+               "by data flow from any request parameter (path, query, header, cookie, body) into an engine_id / unit_id "
+               "/ run_id parameter of the aggregator facade or a repository; endpoints carrying the id in a body are "
+               "held to the table theorem but not probed. auth.has_access is translated from its source and proved "
+               "equal to the model's hasAccess (has_access_source_is_hasAccess) and probed exhaustively over small sets "
+               "of a role universe with case variants, blanks and admin-like names on every run. A spy on EngineData "
+               "attribute access witnesses 'the handler body ran' where the answer carries no data. Trusted: Lean "
+               "kernel; the translator's AST "
                "classification of handlers (guard called before any unit/run data access), tied to behaviour by the "
                "exhaustive differential run over all routes x required-role sets x user-role sets (3 roles); the JWT "
                "decoding in front of user_roles is not part of the check (roles are injected by dependency override).",
@@ -696,7 +704,8 @@ ROLE_NAMES = ["A", "a", "B", " ", "", "admin", "Admin", "ADMIN", "administrator"
 def has_access_cases(ctx: Check) -> list[dict]:
     names = ROLE_NAMES if ctx.tier == "thorough" else ROLE_NAMES[:8] + ["root", "*"]
     small = [list(c) for k in range(3) for c in itertools.combinations(names, k)]
-    cases = [{"kind": "has_access", "required": r, "user": u} for r in small for u in small]
+    cases = [c for c in load_corpus("C32") if c.get("kind") == "has_access"]
+    cases += [{"kind": "has_access", "required": r, "user": u} for r in small for u in small]
     rng = ctx.rng
     for _ in range(ctx.n(300, 5000)):       # larger sets, duplicates in the required list
         r = [rng.choice(ROLE_NAMES) for _ in range(rng.randrange(0, 6))]
